@@ -81,8 +81,12 @@ func runC18(p *Program, r *Result) {
 		}
 		infos = append(infos, loopInfo{fn, loop, line, parse, s})
 
-		// counter: phi [0, n+1] at header; n+1 computed in the first body block
+		// counter: phi [0, n+1] at header with n+1 computed in the first body block (the line
+		// number is n+1), or phi [1, n+1] with the increment on every way back to the header
+		// (`for n := 1; sc.Scan(); n++`: the line number is the phi itself)
 		var counter *ssa.BinOp
+		var counterPhi *ssa.Phi
+		counterStart := int64(-1)
 		for _, in := range loop.Header.Instrs {
 			ph, ok := in.(*ssa.Phi)
 			if !ok {
@@ -91,9 +95,21 @@ func runC18(p *Program, r *Result) {
 			for _, e := range ph.Edges {
 				if bo, ok := e.(*ssa.BinOp); ok && bo.Op.String() == "+" && bo.X == ssa.Value(ph) {
 					if one, ok := constInt(bo.Y); ok && one == 1 {
-						counter = bo
+						counter, counterPhi = bo, ph
+						for _, e2 := range ph.Edges {
+							if k, isK := constInt(e2); isK {
+								counterStart = k
+							}
+						}
 					}
 				}
+			}
+		}
+		var lineNumber ssa.Value // what stands for the number of the current line in the body
+		if counter != nil {
+			lineNumber = counter
+			if counterStart == 1 {
+				lineNumber = counterPhi
 			}
 		}
 
@@ -158,12 +174,23 @@ func runC18(p *Program, r *Result) {
 
 		// ---- R18.2
 		r.cur = "R18.2"
-		okCounter := counter != nil && counter.Block() == body
+		okCounter := counter != nil && (counterStart == 0 && counter.Block() == body || counterStart == 1)
 		if okCounter {
-			// nothing but the increment precedes: every back edge is dominated by it
+			// counting from 0: nothing but the increment precedes; either way every back edge
+			// is dominated by the increment
 			for _, pr := range loop.Header.Preds {
 				if loop.Blocks[pr] && pr != loop.Header && !(counter.Block() == pr || counter.Block().Dominates(pr)) {
 					okCounter = false
+				}
+			}
+		}
+		if okCounter && counterStart == 1 {
+			// counting from 1: the incremented value must not be used inside the iteration
+			for _, ref := range *counter.Referrers() {
+				if ref != ssa.Instruction(counterPhi) {
+					if _, isDbg := ref.(*ssa.DebugRef); !isDbg {
+						okCounter = false
+					}
 				}
 			}
 		}
@@ -183,12 +210,12 @@ func runC18(p *Program, r *Result) {
 			ei := errorResultIndex(fn.Signature)
 			t := tb.Term(rs[ei])
 			hasN := false
-			if counter != nil {
-				for _, sub := range t.Find("Bin") {
-					if sub.V == ssa.Value(counter) {
+			if lineNumber != nil {
+				t.Walk(func(sub *Term) {
+					if sub.V == lineNumber {
 						hasN = true
 					}
-				}
+				})
 			}
 			found = true
 			r.Check(hasN && !isNilConst(rs[ei]) && isNilConst(rs[0]), fn.String(), "parse-error-return", r.pos(ret), "returns (nil, error mentioning n)", "a malformed line does not yield (nil, error with the line number): "+short(t.String()))
